@@ -25,6 +25,7 @@ var (
 	c16pAutoPong     = sim.RegStat("probe:c16-automatic-pong-written")
 	c16pOversize     = sim.RegStat("probe:c16-oversize-message-refused")
 	c16pAsync        = sim.RegStat("probe:c16-async-write")
+	c16pChain        = sim.RegStat("probe:c16-write-started-from-inside-a-write-completion")
 	c16p64           = sim.RegStat("probe:c16-64-bit-length-written")
 )
 
@@ -90,6 +91,41 @@ func (d *c16) writeMsg(size int, async bool) {
 		c.Failf("write-failed", "writing a %d-byte message (maximum %d) on a healthy transport failed: %v", size, d.max, err)
 	}
 	d.expected = append(d.expected, wsFrame{Fin: true, Opcode: op, Payload: p})
+}
+
+// writeChain: a send loop - each completion handler submits the next message itself.
+func (d *c16) writeChain() {
+	c, w := d.c, d.w
+	n := w.Range(2, 5)
+	w.Stat(c16pChain)
+	finished := false
+	var step func(i int)
+	step = func(i int) {
+		size := w.Pick(10, 0, 125, 126, 3000, 65536)
+		if size > d.max {
+			size = d.max
+		}
+		if d.lastSize >= 0 && size < d.lastSize {
+			w.Stat(c16pReuseLonger)
+		}
+		d.lastSize = size
+		p := d.payload(size)
+		d.expected = append(d.expected, wsFrame{Fin: true, Opcode: wsBinary, Payload: p})
+		d.ws.AsyncWrite(p, websocket.TypeBinary, func(e error) {
+			if e != nil {
+				c.Failf("write-failed", "AsyncWrite of %d bytes, started from the previous write's completion, failed on a healthy transport: %v", size, e)
+			}
+			if i+1 < n {
+				step(i + 1)
+			} else {
+				finished = true
+			}
+		})
+	}
+	step(0)
+	if !d.waitFor(&finished) {
+		c.Failf("async-write-never-completes", "a chain of %d AsyncWrite calls, each started from the previous completion: a callback was never invoked", n)
+	}
 }
 
 func (d *c16) writeFrame(async bool) {
@@ -268,7 +304,9 @@ func runC16(c *Ctx, variant int) {
 	steps := w.Range(2, 12)
 	for i := 0; i < steps; i++ {
 		async := w.Chance(1, 2)
-		switch w.Choose(8) {
+		switch w.Choose(9) {
+		case 8:
+			d.writeChain()
 		case 0, 1, 2, 3:
 			var size int
 			switch w.Choose(9) {
